@@ -2,6 +2,7 @@ import TantivyModel.Proofs.Reader
 import TantivyModel.Proofs.ReaderSeq
 import TantivyModel.Proofs.ReaderPub
 import TantivyModel.Proofs.Generations
+import TantivyModel.Proofs.ReaderProgress
 /-!
 # C05 — Searchers are immutable snapshots; readers only ever see whole commits
 
@@ -315,6 +316,24 @@ theorem C05_generation_bookkeeping_in_source :
     Gen.GENERATION_TRACKED_IN_SEARCHER_INNER = 1 ∧ Gen.WARMER_GC_GETS_INVENTORY_LIST = 1 := by
   decide
 
+/-- Progress: in every disciplined history, a reload that has loaded meta_j and holds META_LOCK
+can run to publication — opening each remaining file of meta_j (all present, whatever the writer
+and GC have done meanwhile), releasing the lock, warming, publishing — without leaving the
+discipline: a reload never *needs* to fail or to wait for the writer. -/
+theorem C05_reload_can_always_complete (t : List Ev) (hv : valid full t = true) (r : Rid) (j : Nat)
+    (hl : (run init t).lock = some (.reader r)) (hp : ((run init t).rs r).phase = .loaded)
+    (hj : ((run init t).rs r).j = some j) :
+    valid full (t ++ finish (run init t) r j) = true ∧
+    (r, j) ∈ (run init (t ++ finish (run init t) r j)).pubs := by
+  have hI := inv_run init t inv_init hv
+  obtain ⟨h1, h2⟩ := finish_valid (run init t) r j ⟨hI, hl, hp, hj⟩
+  refine ⟨?_, ?_⟩
+  · show validFrom full init (t ++ _) = true
+    rw [validFrom_append]
+    have hv' : validFrom full init t = true := hv
+    rw [hv', h1]; rfl
+  · rw [run_append]; exact h2
+
 /-! ### the main theorems with the discipline read off the source instead of assumed -/
 
 theorem C05_reload_whole_commit_of_source (t : List Ev) (hv : valid codeDisc t = true) :
@@ -348,6 +367,16 @@ example :
     valid full (t ++ u) = true ∧ sequential 3 (t ++ u) = true ∧
       warmedBeforePublish 3 (t ++ u) = true ∧ served 3 (run init t) = some 1 ∧
       served 3 (run init (t ++ u)) = some 2 ∧ servedReload 3 (run init (t ++ u)) = some (3, 1) := by
+  decide
+
+/-- a reload pre-empted after its first open while a merge is published: what is left to do -/
+example :
+    let t : List Ev :=
+      [.create 1 10, .create 2 11, .saveMeta [1, 2], .acquire (7, 0), .loadMeta (7, 0),
+       .openFile (7, 0) 1, .create 3 30, .saveMeta [3]]
+    valid full t = true ∧ (run init t).lock = some (.reader (7, 0)) ∧
+      finish (run init t) (7, 0) 1 =
+        [.openFile (7, 0) 2, .release (7, 0), .warm (7, 0), .publish (7, 0)] := by
   decide
 
 /-- a publication without warming is what `warmedBeforePublish` excludes -/
